@@ -28,7 +28,7 @@ unsafe fn model_sub(buckets: &[u32], q1: u32, q2: u32, q3: u32) -> u8 {
     ref_byte4(buckets, q1, q2, q3)
 }
 
-// @ob id=agg.x86_sse2.sub_aggregation.eq_ref props=C07,C01,C17 rows=simd,simd-unsafe quick=simd kind=HC+stub fn=generate::bucket_aggregation::x86_sse2::sub_aggregation domain="all 4 buckets x all ordered quartiles (_mm_packs_epi16 by its SDM model)" replay=none
+// @ob id=agg.x86_sse2.sub_aggregation.eq_ref props=C07,C01,C17 rows=simd,simd-unsafe quick=simd kind=HC+stub fn=generate::bucket_aggregation::x86_sse2::sub_aggregation domain="all 4 buckets x all ordered quartiles (_mm_packs_epi16 by its SDM model)" replay=native
 #[kani::proof]
 #[kani::unwind(34)]
 #[kani::stub(core::arch::x86_64::_mm_packs_epi16, model_intrinsic)]
